@@ -10,7 +10,9 @@ from vlib import engine as E
 from vlib.engine import Violation
 
 
-def multi_main(specs, argv=None):
+def multi_main(specs, argv=None, extra=None):
+    """`extra(tier, seed, violations, stats)`: an additional part of the check (e.g. real GC runs under a
+    discontiguous layout) that appends Violations and merges its numbers into `stats`."""
     import argparse
     ap = argparse.ArgumentParser()
     ap.add_argument("--tier", default=os.environ.get("VERIF_TIER", "quick"))
@@ -22,6 +24,8 @@ def multi_main(specs, argv=None):
     if a.replay:
         import json
         lines = json.load(open(a.replay))["case"]
+        if isinstance(lines, dict) and "program" in lines:
+            return replay_gc(a.replay)
         for s in specs:   # the variant whose cfg lines the replay file carries
             if all(p in lines for p in s.pre(True)[1:]):
                 return unit.replay(s, a.replay)
@@ -47,6 +51,8 @@ def multi_main(specs, argv=None):
                     d[kk] = d.get(kk, 0) + vv
             else:
                 stats.setdefault("distribution", {})[k] = v
+    if extra is not None:
+        extra(a.tier, a.seed, violations, stats)
     if not lean["ok"]:
         names = [f.get("theorem") or f.get("module") or f["kind"] for f in lean["failures"]]
         if not any(v.found_input for v in violations):
@@ -72,4 +78,563 @@ def multi_main(specs, argv=None):
         "lean_s": lean.get("lean_s"),
         "variants": [getattr(s, "variant", "") for s in specs],
     }
+    if "gc_part" in stats:
+        corr["gc_part"] = stats["gc_part"]
     return E.finish(spec.pid, a.tier, a.seed, t0, lean, corr, uniq, assumptions=spec.assumptions)
+
+
+# ================================================================================================
+# `dpr` component: CommonPageResource heads over a private Map32 (+ the sparse SFT map under layout 32)
+# ================================================================================================
+from vlib.engine import Case
+
+DFIRST, DLAST = 100, 131
+DN = DLAST - DFIRST + 1
+
+
+class _Sim:
+    """First-fit run-level simulation (as in checks/C29.py) used ONLY to generate well-formed histories."""
+
+    def __init__(self):
+        self.runs = {DFIRST: (DN, True)}
+        self.order = [DFIRST]
+
+    def alloc(self, n):
+        for u in self.order:
+            s = self.runs[u][0]
+            if s >= n:
+                self.order.remove(u)
+                if s > n:
+                    self.runs[u + n] = (s - n, True)
+                    self.order.insert(0, u + n)
+                self.runs[u] = (n, False)
+                return u
+        return None
+
+    def free(self, u):
+        s = self.runs[u][0]
+        start, end = u, u + s
+        for a, (sz, fr) in list(self.runs.items()):
+            if fr and a + sz == u:
+                start = a
+            if fr and a == u + s:
+                end = a + sz
+        for a in [a for a in self.runs if start <= a < end]:
+            if a in self.order:
+                self.order.remove(a)
+            del self.runs[a]
+        self.runs[start] = (end - start, True)
+        self.order.insert(0, start)
+
+
+def dpr_gen(rng, n, debug):
+    """Histories of grow / release (head, middle, tail) / release_all over 1..4 page resources."""
+    cases = []
+    for i in range(n):
+        sim = _Sim()
+        nsp = rng.randrange(1, 5)
+        descs = [4 * (k + 1) for k in range(nsp)]
+        owned = [[] for _ in range(nsp)]
+        ops = [f"dpr new {nsp}"]
+        malformed = debug and rng.random() < 0.08
+        for j in range(rng.randrange(4, 36)):
+            r = rng.random()
+            sp = rng.randrange(nsp)
+            if r < 0.6 or not any(owned):
+                k = rng.choice([1, 1, 1, 2, 2, 3, 4, 5, 8, rng.randrange(1, 34)])
+                ops.append(f"dpr grow {sp} {descs[sp]} {k}")
+                c = sim.alloc(k)
+                if c is not None:
+                    owned[sp].insert(0, c)
+            elif r < 0.88:
+                sp = rng.choice([s for s in range(nsp) if owned[s]])
+                l = owned[sp]
+                pos = rng.choice([0, 0, len(l) - 1, rng.randrange(len(l)), rng.randrange(len(l))])     # the head twice as often
+                c = l.pop(pos)
+                ops.append(f"dpr release {sp} {c}")
+                sim.free(c)
+                if malformed and rng.random() < 0.5 and c in sim.runs and sim.runs[c][1]:
+                    ops += [f"dpr release {sp} {c}", f"dpr grow {sp} {descs[sp]} 1", "dpr state"]   # double release → debug assertion
+                    break
+            elif r < 0.96:
+                ops.append(f"dpr releaseall {sp}")
+                l = owned[sp]
+                # free_all_chunks(head): the next-chain first, then the head itself
+                for c in l[1:] + l[:1]:
+                    sim.free(c)
+                l.clear()
+            else:
+                ops.append("dpr state")
+        if rng.random() < 0.3:
+            ops.append(f"dpr sft {rng.choice([DFIRST, DFIRST + 1, DLAST, DLAST + 1, 1 << 25, (1 << 25) - 1]) << 22:#x}")
+        cases.append(Case(ops))
+    return cases
+
+
+DPR_CORPUS = [
+    # seeded C29: the head region is released while the space owns older regions, then release_all
+    Case(["dpr new 2", "dpr grow 0 4 1", "dpr grow 1 8 2", "dpr grow 0 4 2", "dpr grow 0 4 1", "dpr grow 1 8 1",
+          "dpr release 0 105", "dpr releaseall 0", "dpr releaseall 1", "dpr state"]),
+    # seeded C31: multi-chunk regions freed (one by release, one by release_all), chunks reused by another space
+    Case(["dpr new 2", "dpr grow 0 4 3", "dpr grow 0 4 4", "dpr grow 1 8 2", "dpr release 0 100", "dpr sft 0x19400000",
+          "dpr releaseall 0", "dpr sft 0x1a000000", "dpr grow 1 8 5", "dpr grow 1 8 3", "dpr releaseall 1"]),
+]
+
+
+def parse_dpr_state(txt):
+    d = dict(f.split("=", 1) for f in txt.split())
+    return dict(avail=int(d["avail"]), heads=[int(x) for x in d["heads"].split(",")] if d["heads"] else [],
+                lists=[[] if l == "-" else [tuple(int(x) for x in e.split(":")) for e in l.split("/")] for l in d["lists"].split(";")],
+                desc=[int(x) for x in d["desc"].split(",")],
+                sft=None if d["sft"] == "n/a" else [0 if x == "-" else int(x) for x in d["sft"].split(",")])
+
+
+def dpr_oracle(case, out, want=("pr", "map32", "sft")):
+    """The statements of C29 (page-resource level) and C31 (SFT = owner) evaluated on the implementation's outputs only.
+    Bookkeeping: what each space owns = regions returned by its grows and not yet released."""
+    bad = []
+    owned, size, desc_of = [], {}, {}
+    dead = False
+
+    def check(op, st):
+        regs = {c: (size[c], desc_of[c]) for l in owned for c in l}
+        for sp, l in enumerate(owned):
+            if sp >= len(st["heads"]):
+                continue
+            if st["heads"][sp] != (l[0] if l else 0):
+                bad.append(("pr:head-not-list-head", f"{op}: head of space {sp} is {st['heads'][sp]}, but the space owns {l} "
+                            f"(most recent first): the regions {l} are unreachable from the page resource's head"))
+            elif [e[0] for e in st["lists"][sp]] != l:
+                bad.append(("pr:links-exact", f"{op}: walk from the head of space {sp} visits {[e[0] for e in st['lists'][sp]]}, owned {l}"))
+            elif any(e[1] != size[e[0]] for e in st["lists"][sp]) or [e[2] for e in st["lists"][sp]] != ([0] + l[:-1] if l else []):
+                bad.append(("pr:links-exact", f"{op}: sizes / prev links wrong for space {sp}: {st['lists'][sp]}"))
+        exp = [0] * (DN + 2)
+        for c, (n, d) in regs.items():
+            for x in range(c, c + n):
+                if DFIRST - 1 <= x <= DLAST + 1:
+                    exp[x - (DFIRST - 1)] = d
+        if st["desc"] != exp:
+            bad.append(("map32:descriptor-exact", f"{op}: descriptors {st['desc']} ≠ owners {exp}"))
+        if st["avail"] != DN - sum(n for n, _ in regs.values()):
+            bad.append(("map32:avail-exact", f"{op}: avail={st['avail']} but {DN - sum(n for n, _ in regs.values())} chunks are not allocated"))
+        if st["sft"] is not None and st["sft"] != exp:
+            stale = [DFIRST - 1 + i for i, (a, b) in enumerate(zip(st["sft"], exp)) if a != b and b == 0]
+            if stale:
+                bad.append(("sft:freed-chunk-resolves", f"{op}: chunks {stale} belong to no space (descriptor 0) but the SFT map still "
+                            f"resolves them to spaces {[st['sft'][c - DFIRST + 1] for c in stale]}"))
+            else:
+                bad.append(("sft:not-owner", f"{op}: SFT entries {st['sft']} ≠ owners {exp}"))
+
+    for op, o in zip(case.ops, out):
+        t = op.split()
+        if t[0] != "dpr":
+            continue
+        if o.startswith("panic") or o.startswith("crash") or o == "no-instance":
+            # a double release (malformed stream) is allowed to hit the debug assertion; anything else is not
+            if not dead and not (t[1] == "release" and int(t[3]) not in [c for l in owned for c in l]):
+                bad.append(("pr:panics", f"{op}: {o} on a protocol-respecting history"))
+            dead = True
+            continue
+        if dead or o in ("bad-op", "n/a"):
+            continue
+        try:
+            if t[1] == "new":
+                owned, size, desc_of = [[] for _ in range(min(int(t[2]), 8))], {}, {}
+                check(op, parse_dpr_state(o[3:]))
+            elif t[1] == "grow":
+                sp, d, k = int(t[2]), int(t[3]), int(t[4])
+                c, rest = o.split(" ", 1)
+                c = int(c)
+                if c != 0:
+                    if c < DFIRST or c + k - 1 > DLAST or any(s < c + k and c < s + size[s] for l in owned for s in l):
+                        bad.append(("map32:regions-disjoint", f"{op}: region [{c},{c + k}) overlaps an owned region or leaves the range"))
+                    owned[sp].insert(0, c); size[c] = k; desc_of[c] = d
+                check(op, parse_dpr_state(rest))
+            elif t[1] == "release":
+                sp, c = int(t[2]), int(t[3])
+                if c not in owned[sp]:
+                    dead = True          # not a protocol-respecting history (e.g. produced by shrinking): nothing to check
+                    continue
+                owned[sp].remove(c)
+                check(op, parse_dpr_state(o[3:]))
+            elif t[1] == "releaseall":
+                owned[int(t[2])] = []
+                check(op, parse_dpr_state(o[3:]))
+            elif t[1] == "state":
+                check(op, parse_dpr_state(o))
+            elif t[1] == "sft":
+                a = int(t[2], 0) >> 22
+                he, name = o.split()
+                regs = {c: (size[c], desc_of[c]) for l in owned for c in l}
+                own = next((d for c, (n, d) in regs.items() if c <= a < c + n), 0)
+                if (he == "true") != (a < (1 << 25)) or name != ("empty" if own == 0 else f"s{own}"):
+                    bad.append(("sft:freed-chunk-resolves" if own == 0 else "sft:not-owner",
+                                f"{op}: SFT lookup answers {o}, the chunk's owner is {own or 'nobody'}"))
+        except Exception as e:
+            bad.append(("dpr:unparsable-output", f"{op}: cannot interpret {o!r} ({e!r})"))
+    seen, res = set(), []
+    for k, w in bad:
+        if k.split(":")[0] in want and k not in seen:
+            seen.add(k); res.append((k, w))
+    return res
+
+
+def dpr_nontrivial(case, out):
+    rel = [op.split() for op in case.ops if op.startswith("dpr release ")]
+    return len(rel) >= 1 and any(op.startswith("dpr grow") and int(op.split()[4]) >= 2 for op in case.ops)
+
+
+def dpr_summarize(cases, outs, h, k):
+    """op histogram + which list position each release hit (head / middle / tail / only) + freed region sizes."""
+    for c, o in zip(cases, outs):
+        owned, size = [], {}
+        for op, out in zip(c.ops, o):
+            t = op.split()
+            if t[0] != "dpr":
+                continue
+            h[f"dpr:{t[1]}"] = h.get(f"dpr:{t[1]}", 0) + 1
+            try:
+                if t[1] == "new":
+                    owned, size = [[] for _ in range(min(int(t[2]), 8))], {}
+                elif t[1] == "grow" and not out.startswith("panic"):
+                    c0 = int(out.split()[0])
+                    key = "grow:exhausted" if c0 == 0 else ("grow:multi-chunk" if int(t[4]) > 1 else "grow:single-chunk")
+                    k[key] = k.get(key, 0) + 1
+                    if c0:
+                        owned[int(t[2])].insert(0, c0); size[c0] = int(t[4])
+                elif t[1] == "release":
+                    l = owned[int(t[2])]
+                    c0 = int(t[3])
+                    if c0 in l:
+                        pos = l.index(c0)
+                        key = "release:only" if len(l) == 1 else "release:head" if pos == 0 else "release:tail" if pos == len(l) - 1 else "release:middle"
+                        if size[c0] > 1:
+                            k["release:multi-chunk"] = k.get("release:multi-chunk", 0) + 1
+                        l.remove(c0)
+                    else:
+                        key = "release:malformed"
+                    k[key] = k.get(key, 0) + 1
+                elif t[1] == "releaseall":
+                    key = f"releaseall:{min(len(owned[int(t[2])]), 3)}{'+' if len(owned[int(t[2])]) >= 3 else ''}-regions"
+                    k[key] = k.get(key, 0) + 1
+                    owned[int(t[2])] = []
+            except Exception:
+                pass
+
+
+# ================================================================================================
+# Real collections under the compressed-pointer layout (Map32 + SFTSparseChunkMap in the live instance)
+# ================================================================================================
+import json, random, re, hashlib
+from vlib import gcrun as G
+
+MB = 1 << 20
+CHUNK = 4 * MB
+HEAP_START, HEAP_END = 0x4000_0000, 0x1_0000_0000
+NPROBE = 40                       # chunks of the heap range probed after every collection
+OUTSIDE = [HEAP_START - CHUNK, HEAP_START - 8, HEAP_END, HEAP_END + CHUNK + 8, (1 << 47) - 8, 1 << 47, (1 << 47) + CHUNK]
+
+
+class LProgram(G.Program):
+    """A gcrun program that runs under `cfg layout compressed` (process-wide, before init)."""
+
+    def header(self):
+        h = super().header()
+        return ["cfg layout compressed"] + [("cfg watchdog 300" if x.startswith("cfg watchdog") else x) for x in h]
+
+    def with_ops(self, ops):
+        p = LProgram.from_json(self.to_json()); p.ops = list(ops); return p
+
+    @staticmethod
+    def from_json(d):
+        q = G.Program.from_json(d)
+        return LProgram(q.plan, q.ops, q.heap, q.workers, q.stress, q.fs, q.yield_seed, q.tag, q.mode, q.mutators, q.opts)
+
+
+def probe_ops():
+    ops = ["regions", "stats"]
+    for c in range(NPROBE):
+        base = HEAP_START + c * CHUNK
+        for a in (base, base + CHUNK // 2, base + CHUNK - 8):
+            ops += [f"sftname {a:#x}", f"desc {a:#x}", f"inspaces {a:#x}", f"ismapped {a:#x}"]
+    for a in OUTSIDE:
+        ops += [f"sftname {a:#x}", f"desc {a:#x}", f"inspaces {a:#x}"]
+    return ops
+
+
+def gc_program(plan, rnd, rounds, workers=1):
+    """Large objects spanning 2..4 chunks allocated, dropped (head / middle / tail of the LOS region list) and
+    collected; small garbage so that the copying / nursery spaces acquire and release regions too; after every
+    collection every chunk of the range is probed."""
+    ops = ["alloc 0 0 1 0 8 0 Default 63", "vmroot 255 0", "root 0 63 null"]     # anchor (keeps MarkCompact's F-H away)
+    nid, live = 1, {}                       # slot -> id
+    ops += probe_ops()
+    # scripted prologue: three multi-chunk regions A, B, C on the LOS list (C is the head); release the HEAD while
+    # A and B survive, then (with a new head D) the MIDDLE one, then the TAIL
+    for s, payload in ((0, 9 * MB), (1, 5 * MB), (2, 9 * MB + 4096)):
+        ops.append(f"alloc 0 {nid} 0 {payload} 8 0 Los {s}"); live[s] = nid; nid += 1
+    ops += ["root 0 2 null", "gc 0 1"] + probe_ops(); del live[2]
+    ops.append(f"alloc 0 {nid} 0 {13 * MB} 8 0 Los 2"); live[2] = nid; nid += 1
+    ops += ["root 0 1 null", "gc 0 1"] + probe_ops(); del live[1]
+    ops += ["root 0 0 null", "gc 0 1"] + probe_ops(); del live[0]
+    for r in range(rounds):
+        for _ in range(rnd.randrange(1, 3)):
+            free = [s for s in range(0, 4) if s not in live]
+            if not free:
+                break
+            s = rnd.choice(free)
+            payload = rnd.choice([4 * MB + 4096, 5 * MB, 7 * MB, 8 * MB - 64, 8 * MB + 4096, 9 * MB, 11 * MB, 12 * MB + 8192,
+                                  13 * MB, 3 * MB, 600 * 1024, rnd.randrange(4 * MB, 14 * MB) & ~7])
+            ops.append(f"alloc 0 {nid} 0 {payload} 8 0 Los {s}")
+            live[s] = nid
+            nid += 1
+        # small garbage: ~2-9 MB of 6 KB objects in one root slot (the nursery / from-space grows by whole regions)
+        for _ in range(rnd.choice([300, 700, 1500])):
+            ops.append(f"alloc 0 {nid} 1 6000 8 0 Default 40")
+            nid += 1
+        # drop: the most recent only (head of the LOS region list, older regions survive), the oldest (tail), a
+        # middle one, two random ones, or none
+        slots = sorted(live, key=lambda s: live[s])
+        how = rnd.choice(["head", "head", "tail", "middle", "two", "none"]) if len(slots) >= 2 else rnd.choice(["head", "none"])
+        drop = {"head": slots[-1:], "tail": slots[:1], "middle": slots[len(slots) // 2:len(slots) // 2 + 1],
+                "two": rnd.sample(slots, min(2, len(slots))), "none": []}[how]
+        for s in drop:
+            ops.append(f"root 0 {s} null")
+            del live[s]
+        ops.append(f"gc 0 {rnd.choice([1, 1, 1, 0])}")
+        ops += probe_ops()
+    # drop everything, two full collections: every LOS region must be back in the map
+    for s in sorted(live):
+        ops.append(f"root 0 {s} null")
+    ops += ["gc 0 1", "gc 0 1"] + probe_ops()
+    return LProgram(plan, ops, heap=rnd.choice([160, 192]) * MB, workers=workers, tag=f"lay32/{plan}")
+
+
+def gc_suite(seed, tier):
+    plans = ["GenImmix", "SemiSpace", "MarkSweep", "Immix"] if tier == "quick" else \
+            ["GenImmix", "SemiSpace", "MarkSweep", "Immix", "GenCopy", "StickyImmix", "MarkCompact", "PageProtect",
+             "GenImmix", "SemiSpace", "GenCopy", "Immix"]
+    progs = []
+    for i, plan in enumerate(plans):
+        rnd = random.Random(f"{seed}/lay32/{plan}/{i}")
+        progs.append(gc_program(plan, rnd, rounds=4 if tier == "quick" else 12, workers=1 if i % 2 == 0 else 4))
+    return progs
+
+
+def parse_regions(res):
+    """`regions avail=N name:desc:head:a+n/a+n …` → (avail, {name: (desc, head, [(chunk, n)] | None for contiguous)})"""
+    t = res.split()
+    avail = int(t[1].split("=")[1])
+    sp = {}
+    for tok in t[2:]:
+        f = tok.split(":")
+        if f[2] == "contig":
+            sp[f[0]] = (int(f[1], 16), 0, None)
+        else:
+            rs = [] if f[3] == "-" else [(int(e.split("+")[0], 16) // CHUNK, int(e.split("+")[1])) for e in f[3].split("/")]
+            sp[f[0]] = (int(f[1], 16), int(f[2], 16) // CHUNK, rs)
+    return avail, sp
+
+
+def gc_oracle(trace, st=None):
+    """C31 / C29 on what the live instance answered (independent of the Lean model).
+    Returns [(pair index, key, what)]; fills `st` (a dict) with distribution numbers."""
+    bad = []
+    st = st if st is not None else {}
+    def inc(k, n=1): st[k] = st.get(k, 0) + n
+    cur = None              # latest (avail, spaces)
+    total = None
+    prev_lists = {}
+    live = {}               # id -> (start, size, space, slot)
+    slot = {}
+    ever = {}               # chunk -> last owner name
+    for i, (op, res) in enumerate(trace.pairs):
+        t = op.split()
+        if res.startswith(("fatal", "timeout", "crash")) or (res.startswith("panic") and t[0] not in ("cfg",)):
+            bad.append((i, "gc:panic", f"`{op}` → {res}"))
+            continue
+        if t[0] == "alloc" and res.startswith("a="):
+            m = re.search(r"a=(0x[0-9a-f]+) r=\S+ sz=(\d+) space=(\S+)", res)
+            if t[7] == "Los":
+                s = int(t[8])
+                if s in slot:
+                    live.pop(slot[s], None)
+                slot[s] = int(t[2])
+                live[int(t[2])] = (int(m.group(1), 16), int(m.group(2)), m.group(3))
+                for x in range(int(m.group(1), 16) // CHUNK, (int(m.group(1), 16) + int(m.group(2)) - 1) // CHUNK + 1):
+                    ever[x] = m.group(3)
+                inc(f"los-objects:{-(-int(m.group(2)) // CHUNK)}-chunks")
+        elif t[0] == "root" and t[3] == "null":
+            live.pop(slot.pop(int(t[2]), None), None)
+        elif t[0] == "regions" and res.startswith("regions"):
+            avail, sp = parse_regions(res)
+            cur = (avail, sp)
+            inc("regions-observations")
+            owned = sum(n for (_, _, rs) in sp.values() if rs for (_, n) in rs)
+            if total is None:
+                total = avail + owned
+            if avail + owned != total:
+                bad.append((i, "pr:regions-lost", f"available chunks {avail} + chunks on the spaces' region lists {owned} ≠ {total}: "
+                            f"regions are allocated in the VM map but reachable from no page resource's head ({res})"))
+            for name, (d, head, rs) in sp.items():
+                if rs is None:
+                    continue
+                if head != (rs[0][0] if rs else 0):
+                    bad.append((i, "pr:head-not-list-head", f"{name}: head {head:#x} but list {rs}"))
+                old = prev_lists.get(name, [])
+                now = [c for c, _ in rs]
+                for k, (c, n) in enumerate(old):
+                    if c not in now:
+                        pos = "only" if len(old) == 1 else "head" if k == 0 else "tail" if k == len(old) - 1 else "middle"
+                        inc(f"released:{pos}:{'multi' if n > 1 else 'single'}-chunk")
+                        if k == 0 and any(c2 in now for c2, _ in old[1:]):
+                            inc("released:head-with-survivors")
+                prev_lists[name] = rs
+                for c, n in rs:
+                    for x in range(c, c + n):
+                        ever[x] = name
+            # every live large object lies in regions on its space's list
+            for oid, (a, sz, spn) in live.items():
+                rs = (sp.get(spn) or (0, 0, []))[2] or []
+                for x in range(a // CHUNK, (a + sz - 1) // CHUNK + 1):
+                    if not any(c <= x < c + n for c, n in rs):
+                        bad.append((i, "pr:region-not-on-list", f"live object {oid} at {a:#x} (+{sz}) occupies chunk {x * CHUNK:#x}, which is "
+                                    f"on no region list of space {spn}: {res}"))
+                        break
+        elif t[0] in ("sftname", "desc", "inspaces", "ismapped") and cur is not None:
+            a = int(t[1], 0)
+            x = a // CHUNK
+            own = next(((name, d) for name, (d, _, rs) in cur[1].items() if rs and any(c <= x < c + n for c, n in rs)), None)
+            inc("probes")
+            if own:
+                inc("probes:owned-chunk")
+            elif x in ever:
+                inc("probes:freed-chunk")
+            if t[0] == "sftname":
+                if own is None and res != "empty":
+                    bad.append((i, "sft:freed-chunk-resolves", f"{a:#x}: chunk {x * CHUNK:#x} is on no space's region list "
+                                f"(last owner: {ever.get(x, 'never owned')}) but the SFT map resolves it to `{res}`"))
+                elif own is not None and res != own[0]:
+                    bad.append((i, "sft:not-owner", f"{a:#x}: owned by {own[0]}, SFT map says `{res}`"))
+            elif t[0] == "desc":
+                if int(res, 16) != (own[1] if own else 0):
+                    bad.append((i, "vmmap:descriptor-wrong", f"{a:#x}: VM map descriptor {res}, owner {own}"))
+            elif t[0] == "inspaces":
+                if (res == "true") != (own is not None):
+                    bad.append((i, "sft:inspaces-wrong", f"is_in_mmtk_spaces({a:#x}) = {res}, owner {own}"))
+            elif t[0] == "ismapped":
+                if res != "true" and any(s <= a < s + sz for s, sz, _ in live.values()):
+                    bad.append((i, "mmap:live-object-unmapped", f"is_mapped_address({a:#x}) = {res} inside a live large object"))
+    return bad
+
+
+def gc_model_lines(trace):
+    """Feed the Lean `resolve` component: the region lists observed, then the probes. Returns (lines, index map, expected)."""
+    lines, idx, got = ["cfg layout 32"], [], []
+    pend = {}
+    have = False
+    for i, (op, res) in enumerate(trace.pairs):
+        t = op.split()
+        if t[0] == "regions" and res.startswith("regions"):
+            lines.append("resolve lregions " + " ".join(res.split()[2:]))
+            idx.append(None); got.append("ok")
+            have = True
+            pend = {}
+        elif t[0] in ("sftname", "desc", "inspaces") and have and not res.startswith(("panic", "crash", "fatal")):
+            pend.setdefault(t[1], {})[t[0]] = (i, res)
+            if len(pend[t[1]]) == 3:
+                p = pend.pop(t[1])
+                lines.append(f"resolve lprobe {t[1]}")
+                idx.append(p["sftname"][0])
+                got.append(f"{p['sftname'][1]} {int(p['desc'][1], 16):#x} {p['inspaces'][1]}")
+    return lines, idx, got
+
+
+def fingerprint():
+    h = hashlib.sha1((G.fingerprint() + str(os.stat(__file__).st_mtime_ns)).encode())
+    return h.hexdigest()[:16]
+
+
+def gc_traces(seed, tier):
+    """Run (or load) the suite; shared by C29 and C31."""
+    d = os.path.join(E.BUILD, "lay32-cache")
+    os.makedirs(d, exist_ok=True)
+    path = os.path.join(d, f"{tier}-{seed}-{fingerprint()}.json")
+    if os.path.exists(path):
+        try:
+            return [G.Trace.from_json(t) for t in json.load(open(path))], "hit"
+        except (ValueError, KeyError):
+            pass
+    progs = gc_suite(seed, tier)
+    E.log(f"lay32: {len(progs)} programs under cfg layout compressed, {sum(len(p.ops) for p in progs)} ops")
+    traces = G.run_many(progs, jobs=4, timeout=900)
+    json.dump([t.to_json() for t in traces], open(path, "w"))
+    return traces, "miss"
+
+
+def gc_part(pid, keys):
+    """The whole-GC part of a check: `keys` = key prefixes this property reports."""
+    def extra(tier, seed, violations, stats):
+        t0 = time.time()
+        try:
+            traces, cache = gc_traces(seed, tier)
+        except RuntimeError as e:
+            violations.append(Violation("harness-build-failed", str(e)[-1500:], found_input=False, broken="hx_gc build"))
+            return
+        dist, nprobe, ndis, reported = {}, 0, 0, set()
+        for tr in traces:
+            tr.program = LProgram.from_json(tr.program.to_json())
+            d = {}
+            bad = gc_oracle(tr, d)
+            for k, v in d.items():
+                dist[f"{tr.program.plan}:{k}"] = dist.get(f"{tr.program.plan}:{k}", 0) + v
+            lines, idx, got = gc_model_lines(tr)
+            outs, rc, err = E.run_lines(E.model_exe(), lines, timeout=600)
+            if rc != 0 or len(outs) != len(lines):
+                violations.append(Violation("model-lost-sync", f"mmtk_model on a lay32 trace: rc={rc} {err[-300:]}", found_input=False,
+                                            broken="Lean driver resolve lregions/lprobe"))
+                continue
+            nprobe += len(got)
+            explained = {i for i, _, _ in bad}
+            for o, g, i in zip(outs[1:], got, idx):
+                if o != g:
+                    ndis += 1
+                    if i is not None and not any(abs(i - j) <= 3 for j in explained):
+                        bad.append((i, "correspondence:resolve-live", f"`{tr.pairs[i][0]}`: live instance answers `{g}`, the Lean model of the "
+                                    f"sparse SFT map / Map32 descriptor lookup over the observed region lists answers `{o}`"))
+            for i, key, what in bad:
+                if not key.startswith(tuple(keys)) or key in reported:
+                    continue
+                reported.add(key)
+                # concrete failing program: the prefix up to the failing probe
+                n_hdr = len(tr.program.header())
+                upto = [op for op, _ in tr.pairs[n_hdr:i + 1] if op != "snap"]
+                # keep the last probe block only
+                cut = max((k for k, op in enumerate(upto[:-1]) if op.startswith("gc ")), default=0)
+                small = [op for k, op in enumerate(upto) if k >= cut or op.split()[0] in ("alloc", "root", "vmroot", "gc")]
+                case = {"program": tr.program.with_ops(small).to_json(), "layout": "compressed",
+                        "lines": tr.program.header() + small}
+                violations.append(Violation(key, f"[{tr.program.plan}, cfg layout compressed, workers={tr.program.workers}] {what}",
+                                            case, [r for _, r in tr.pairs[max(0, i - 3):i + 1]], None, key.split(":")[0] != "correspondence"))
+        stats["evaluations"] = stats.get("evaluations", 0) + len(traces)
+        stats["op_lines"] = stats.get("op_lines", 0) + sum(len(t.pairs) for t in traces)
+        stats["disagreements"] = stats.get("disagreements", 0) + ndis
+        stats.setdefault("_distinct", set()).update((t.program.plan, t.program.workers, len(t.pairs)) for t in traces)
+        stats.setdefault("distribution", {})["gc_compressed_layout"] = dist
+        stats["gc_part"] = {"programs": len(traces), "plans": sorted({t.program.plan for t in traces}), "cache": cache,
+                            "probe_triples_compared_with_lean_model": nprobe, "wall_s": round(time.time() - t0, 1),
+                            "rc": [t.rc for t in traces]}
+    return extra
+
+
+def replay_gc(path):
+    """`./check Cxx --replay file` for a whole-GC violation of this package."""
+    data = json.load(open(path))
+    prog = LProgram.from_json(data["case"]["program"])
+    tr = G.run(prog, timeout=900)
+    bad = gc_oracle(tr)
+    for i, k, w in bad[:10]:
+        print(f"  {k}: {w}")
+    hit = any(k == data["key"] for _, k, _ in bad)
+    print("REPLAY:", "violation reproduced" if hit else "no longer reproduces")
+    return 1 if hit else 0
